@@ -72,7 +72,7 @@ Next == \E o \in Ops(s) :
           IN /\ s' = r.s
              /\ bad' = {p \in CheckProps : ~M!AllowedBy(p, hs, pre, e)}
              /\ hs' = IF CheckProps = {} THEN hs ELSE M!HUpdate(CheckProps, hs, pre, e)
-             /\ h' = IF Emit THEN Append(h, OpJson(o)) ELSE h
+             /\ h' = IF Emit \/ MaxDepth > 0 THEN Append(h, OpJson(o)) ELSE h
              /\ (Emit => PrintT(<<"EDGE", ToJson([cfg |-> CfgJson(s.cfg), ops |-> h', last |-> e])>>))
 
 Spec == Init /\ [][Next]_vars
